@@ -118,7 +118,8 @@ ADDENDA = {
     "C14": " Standalone strata also have target-reset while a unit is in flight, full resync under the same id and fail-over with +CONTINUE; cluster strata (3 nodes) add node stalls, single-connection resets, in-process restarts; the recovery-format switch runs as stratum modeswitch on histories that include those events.",
     "C16": " Leader events while followers are served (full resync, id switch, cache restart), followers more than 10 MiB behind, channel.verifyCrc drawn per run, lock-park mode; after a leader id switch the follower's copy under the old id is checked at every quiescent point.",
     "C17": " Also enumerated per operation: from its k-th request on the target is out of memory (denyoom commands refused, deletions and reads served). Strata gccmd* run the real cmd-level collector (also concurrent with a fail-over, or with a source shard that takes no connection), newoutput the tool's whole start path over a chain of fail-overs, modeswitch the bidirectional recovery-format switch on histories produced by the real replay (with crashes, full resyncs and fail-overs).",
-    "C18": " Keys include the empty string and keys whose hash tag stands far behind byte 512; filtered strata; commands whose key position only the target knows.",
+    "C18": " Keys include the empty string and keys whose hash tag stands far behind byte 512; filtered strata; commands whose key position only the target knows; strata migrating-*: slots of the unit keys migrate during the replay (a run is judged up to the first error the link reports; the cluster double records commands an importing node serves under ASKING for keys the owner never redirected).",
+    "C13": " Half of the incremental runs keep a minimal existence model at both sites, so that a mirrored DEL of a key that is gone at the peer is a no-op there and is left out of the transaction the peer's master propagates (omission of no-op business commands).",
     "C20": " A fifth of the plain runs answer one request with a 'not ready' error (BUSY / LOADING / TRYAGAIN): a replay that stops is judged by what the policies promise about keys that were there before, one that goes on by the whole oracle; the bidirectional stratum has a racing client between probe and transaction.",
 }
 
